@@ -171,8 +171,20 @@ func readWire(file []byte, typ reflect.Type) ([]reflect.Value, error) {
 }
 
 func readWireFrom(rd avro.Reader, typ reflect.Type) ([]reflect.Value, error) {
+	return readWireInto(rd, typ, false)
+}
+
+// readWireInto reads by value, or (dirty) by pointer into a struct the caller has
+// already used: every field holds an old value when ReadFile starts.
+func readWireInto(rd avro.Reader, typ reflect.Type, dirty bool) ([]reflect.Value, error) {
 	var got []reflect.Value
-	err := avro.ReadFile(rd, reflect.New(typ).Elem().Interface(), func(val unsafe.Pointer, rb *avro.ResourceBank) error {
+	out := reflect.New(typ).Elem().Interface()
+	if dirty {
+		p := reflect.New(typ)
+		junkFill(p.Elem(), 3)
+		out = p.Interface()
+	}
+	err := avro.ReadFile(rd, out, func(val unsafe.Pointer, rb *avro.ResourceBank) error {
 		cp := reflect.New(typ).Elem()
 		cp.Set(reflect.NewAt(typ, val).Elem())
 		got = append(got, cp)
@@ -203,7 +215,11 @@ func runC03(c wireCase) (bool, []string, error) {
 	}
 	nt, labels := wireLabels(c, st, len(lay.Blocks))
 	typ := spec.Build(c.Target)
-	got, rerr := readWireFrom(makeReader(c.Reader, file), typ)
+	dirtyTarget := len(c.Sync) > 1 && c.Sync[1]%4 == 0
+	if dirtyTarget {
+		labels = append(labels, "dirty_target")
+	}
+	got, rerr := readWireInto(makeReader(c.Reader, file), typ, dirtyTarget)
 	firstMisfit := -1
 	for i, d := range c.Datums {
 		if !datumFits(c.Schema, d, c.Target) {
@@ -291,7 +307,7 @@ func drawWireCase(t *rapid.T, o *gen.WireOpts) wireCase {
 	}
 	c.Codec = rapid.SampledFrom([]string{"null", "deflate", "snappy", "null", "deflate", "snappy", ""}).Draw(t, "codec")
 	c.Sync = rapid.SliceOfN(rapid.Byte(), 16, 16).Draw(t, "sync")
-	c.Reader = []int{0, 0, 0, 1, 2, 5, 102, 4195}[gen.Uniform(t, "reader", 8)]
+	c.Reader = []int{0, 0, 0, 1, 2, 5, 102, 4195, 50, 51}[gen.Uniform(t, "reader", 10)]
 	return c
 }
 
